@@ -1,0 +1,17 @@
+//go:build verif
+
+package core
+
+// Add-only exports for the verification harness (built only with -tags verif).
+
+// VerifParseEntry exposes (*XRefParser).parseEntry: one line of a classic
+// cross-reference table.
+func VerifParseEntry(line string) (*XRefEntry, error) {
+	return (&XRefParser{}).parseEntry(line)
+}
+
+// VerifParseXRefStreamEntry exposes (*XRefParser).parseXRefStreamEntry: one binary
+// entry of a cross-reference stream with field widths w.
+func VerifParseXRefStreamEntry(data []byte, w []int) (*XRefEntry, int, error) {
+	return (&XRefParser{}).parseXRefStreamEntry(data, w)
+}
